@@ -67,5 +67,5 @@ Proof. intros Hp. unfold layout_stride_guard, pre_index. rewrite (u64_id r Hp). 
 Lemma array_index_safe_exact n i : is_size_t i -> array_index true n i = pre_index n i.
 Proof. intros Hi. unfold array_index, pre_index. rewrite (u64_id i Hi). reflexivity. Qed.
 
-Lemma day_ctor_exact d : 0 <= d < 4294967296 -> day_ctor d = (d <? 255).
+Lemma day_ctor_exact d : 0 <= d < 4294967296 -> day_ctor d = (d <=? 255).
 Proof. intros H. unfold day_ctor, wrapu. change (2 ^ 32) with 4294967296. rewrite Z.mod_small by lia. reflexivity. Qed.
